@@ -1062,6 +1062,8 @@ def top_forms(text):
 
 # ------------------------------------------------------------------ canonical (rename-independent) hole names
 def canon(h):
+    if isinstance(h, dict) and h.get("spec") and h.get("v") != "hole":
+        return canon({k: x for k, x in h.items() if k != "spec"}) + ":" + h["spec"]
     if not isinstance(h, dict):
         return str(h)
     v = h.get("v")
